@@ -1378,6 +1378,8 @@ def _check(ctx):
 
 _LO = "        if len(self._buffer) >= (self.MAX_LENGTH + len(self.delimiter)):\n            return self.lineLengthExceeded(self._buffer)\n"
 MUTANTS = [
+    Mutant("netstring-inlined-extraction-leaves-the-payload-in-the-unconsumed-data", B, '        self._extractPayload()\n        if self._currentPayloadSize < self._expectedPayloadSize:\n            raise IncompleteNetstring()\n', '        if not self._payloadComplete():\n            self._payload.write(self._remainingData)\n            self._currentPayloadSize += len(self._remainingData)\n            self._remainingData = b""\n            raise IncompleteNetstring()\n        lacking = self._expectedPayloadSize - self._currentPayloadSize\n        self._payload.write(self._remainingData[:lacking])\n        self._currentPayloadSize = self._expectedPayloadSize\n', expect_rule="netstring/"),
+    Mutant("line-generator-context-manager-without-finally", B, 'from io import BytesIO\n', 'from contextlib import contextmanager\nfrom io import BytesIO\n', more=[(B, '        try:\n            self._busyReceiving = True\n            self._buffer += data\n            while self._buffer and not self.paused:\n                if self.line_mode:\n                    try:\n                        line, self._buffer = self._buffer.split(self.delimiter, 1)\n                    except ValueError:\n                        if len(self._buffer) >= (self.MAX_LENGTH + len(self.delimiter)):\n                            line, self._buffer = self._buffer, b""\n                            return self.lineLengthExceeded(line)\n                        return\n                    else:\n                        lineLength = len(line)\n                        if lineLength > self.MAX_LENGTH:\n                            exceeded = line + self.delimiter + self._buffer\n                            self._buffer = b""\n                            return self.lineLengthExceeded(exceeded)\n                        why = self.lineReceived(line)\n                        if why or self.transport and self.transport.disconnecting:\n                            return why\n                else:\n                    data = self._buffer\n                    self._buffer = b""\n                    why = self.rawDataReceived(data)\n                    if why:\n                        return why\n        finally:\n            self._busyReceiving = False\n', '        with self._whileDelivering():\n            self._buffer += data\n            while self._buffer and not self.paused:\n                if self.line_mode:\n                    stop, outcome = self._oneLine()\n                else:\n                    stop, outcome = self._rawChunk()\n                if stop:\n                    return outcome\n\n    @contextmanager\n    def _whileDelivering(self):\n        self._busyReceiving = True\n        yield\n        self._busyReceiving = False\n\n    def _oneLine(self):\n        try:\n            line, self._buffer = self._buffer.split(self.delimiter, 1)\n        except ValueError:\n            if len(self._buffer) >= (self.MAX_LENGTH + len(self.delimiter)):\n                line, self._buffer = self._buffer, b""\n                return True, self.lineLengthExceeded(line)\n            return True, None\n        if len(line) > self.MAX_LENGTH:\n            exceeded = line + self.delimiter + self._buffer\n            self._buffer = b""\n            return True, self.lineLengthExceeded(exceeded)\n        why = self.lineReceived(line)\n        if why or self.transport and self.transport.disconnecting:\n            return True, why\n        return False, None\n\n    def _rawChunk(self):\n        data, self._buffer = self._buffer, b""\n        why = self.rawDataReceived(data)\n        if why:\n            return True, why\n        return False, None\n')], expect_rule="line/"),
     Mutant("line-split-into-two-locals-rest-never-stored", B, '                        line, self._buffer = self._buffer.split(self.delimiter, 1)\n', "                        line, rest = self._buffer.split(self.delimiter, 1)\n", expect_rule="line/"),
     Mutant("netstring-inlined-hand-over-without-comma-check", B, '        self._checkForTrailingComma()\n        self._state = self._PARSING_LENGTH\n        self._processPayload()\n', '        whole = self._payload.getvalue()\n        self._state = self._PARSING_LENGTH\n        self.stringReceived(whole[:-1])\n', expect_rule="netstring/comma-checked"),
     Mutant("netstring-inlined-hand-over-keeps-the-comma", B, '        self._checkForTrailingComma()\n        self._state = self._PARSING_LENGTH\n        self._processPayload()\n', '        whole = self._payload.getvalue()\n        if whole[-1:] != b",":\n            raise NetstringParseError(self._MISSING_COMMA)\n        self._state = self._PARSING_LENGTH\n        self.stringReceived(whole)\n', expect_rule="netstring/payload-without-comma"),
@@ -1494,6 +1496,8 @@ MUTANTS = [
            expect_rule="line-only/segmentation-invariant"),
 ]
 SILENT = [
+    Silent("netstring-extraction-written-out-in-consume-payload-completeness-first", B, '        self._extractPayload()\n        if self._currentPayloadSize < self._expectedPayloadSize:\n            raise IncompleteNetstring()\n', '        if not self._payloadComplete():\n            self._payload.write(self._remainingData)\n            self._currentPayloadSize += len(self._remainingData)\n            self._remainingData = b""\n            raise IncompleteNetstring()\n        lacking = self._expectedPayloadSize - self._currentPayloadSize\n        self._payload.write(self._remainingData[:lacking])\n        self._remainingData = self._remainingData[lacking:]\n        self._currentPayloadSize = self._expectedPayloadSize\n'),
+    Silent("line-busy-flag-by-generator-context-manager-loop-bodies-return-pairs", B, 'from io import BytesIO\n', 'from contextlib import contextmanager\nfrom io import BytesIO\n', more=[(B, '        try:\n            self._busyReceiving = True\n            self._buffer += data\n            while self._buffer and not self.paused:\n                if self.line_mode:\n                    try:\n                        line, self._buffer = self._buffer.split(self.delimiter, 1)\n                    except ValueError:\n                        if len(self._buffer) >= (self.MAX_LENGTH + len(self.delimiter)):\n                            line, self._buffer = self._buffer, b""\n                            return self.lineLengthExceeded(line)\n                        return\n                    else:\n                        lineLength = len(line)\n                        if lineLength > self.MAX_LENGTH:\n                            exceeded = line + self.delimiter + self._buffer\n                            self._buffer = b""\n                            return self.lineLengthExceeded(exceeded)\n                        why = self.lineReceived(line)\n                        if why or self.transport and self.transport.disconnecting:\n                            return why\n                else:\n                    data = self._buffer\n                    self._buffer = b""\n                    why = self.rawDataReceived(data)\n                    if why:\n                        return why\n        finally:\n            self._busyReceiving = False\n', '        with self._whileDelivering():\n            self._buffer += data\n            while self._buffer and not self.paused:\n                if self.line_mode:\n                    stop, outcome = self._oneLine()\n                else:\n                    stop, outcome = self._rawChunk()\n                if stop:\n                    return outcome\n\n    @contextmanager\n    def _whileDelivering(self):\n        try:\n            self._busyReceiving = True\n            yield\n        finally:\n            self._busyReceiving = False\n\n    def _oneLine(self):\n        try:\n            line, self._buffer = self._buffer.split(self.delimiter, 1)\n        except ValueError:\n            if len(self._buffer) >= (self.MAX_LENGTH + len(self.delimiter)):\n                line, self._buffer = self._buffer, b""\n                return True, self.lineLengthExceeded(line)\n            return True, None\n        if len(line) > self.MAX_LENGTH:\n            exceeded = line + self.delimiter + self._buffer\n            self._buffer = b""\n            return True, self.lineLengthExceeded(exceeded)\n        why = self.lineReceived(line)\n        if why or self.transport and self.transport.disconnecting:\n            return True, why\n        return False, None\n\n    def _rawChunk(self):\n        data, self._buffer = self._buffer, b""\n        why = self.rawDataReceived(data)\n        if why:\n            return True, why\n        return False, None\n')]),
     Silent("line-split-into-two-locals-rest-stored-next", B, '                        line, self._buffer = self._buffer.split(self.delimiter, 1)\n', "                        line, rest = self._buffer.split(self.delimiter, 1)\n                        self._buffer = rest\n"),
     Silent("netstring-comma-check-and-hand-over-written-out-in-place", B, '        self._checkForTrailingComma()\n        self._state = self._PARSING_LENGTH\n        self._processPayload()\n', '        whole = self._payload.getvalue()\n        if whole[-1:] != b",":\n            raise NetstringParseError(self._MISSING_COMMA)\n        self._state = self._PARSING_LENGTH\n        self.stringReceived(whole[:-1])\n'),
     Silent("netstring-payload-preparation-written-out-in-place", B, '            self._consumeLength()\n            self._prepareForPayloadConsumption()\n', '            self._consumeLength()\n            self._payload.seek(0)\n            self._payload.truncate()\n            self._currentPayloadSize = 0\n            self._state = self._PARSING_PAYLOAD\n'),
